@@ -19,7 +19,7 @@ RULE = (
     "recipes from vlib.gen.Gen, each run unoptimised (every intermediate is written) and optimised (fused ops) on "
     "single-threaded/threads executors; every block write of every task is observed. Non-trivial = the run "
     "completed and at least one multi-block array was written; distinct by hash of (recipe, configuration)"
-    " Plus a bounded-exhaustive parameter sweep: single-operation recipes enumerating the discrete parameters of the public functions for 1-3 dimensions (every ordered choice of tensordot contraction axes; per-dimension {all, reversed, strided, reversed+strided, integer} indexing with a new axis at every position; all axis permutations, moveaxis pairs, flip/reduction axis subsets x keepdims, roll, arg-reductions, scans, diff, repeat, take, unstack, concat/stack/expand_dims positions, pad widths, tril/triu offsets, vecdot axes: 857 cases), geometry drawn at random, each run optimised and unoptimised."
+    " Plus a bounded-exhaustive parameter sweep: single-operation recipes enumerating the discrete parameters of the public functions for 1-3 dimensions (every ordered choice of tensordot contraction axes; per-dimension {all, reversed, strided, reversed+strided, integer} indexing with a new axis at every position; all axis permutations, moveaxis pairs, flip/reduction axis subsets x keepdims, roll, arg-reductions, scans, diff, repeat, take, unstack, concat/stack/expand_dims positions, pad widths, tril/triu offsets, vecdot axes, ordered block selections through Array.blocks: 1032 cases; reshape splitting or merging dimensions of sizes 6-12 for every chunking), geometry drawn at random, each run optimised and unoptimised."
 )
 ASSUMPTIONS = [
     "all block writes go through zarr.Array.__setitem__ (apply_blockwise and ZarrV3ArrayGroup.set_basic_selection do)",
@@ -136,7 +136,7 @@ def finalize(tier, merged):
     return {
         "rule": RULE,
         "floors": [
-            ("parameter-sweep cases run (of 857 enumerated)", c.get("param_sweep_cases", 0), 700),
+            ("parameter-sweep cases run (of 1032 enumerated)", c.get("param_sweep_cases", 0), 850),
             ("block writes observed", c.get("block_writes", 0), 20000 if tier == "quick" else 125000),
             ("arrays whose declared metadata was compared with the stored array", c.get("backing_arrays_compared", 0), 1000 if tier == "quick" else 6000),
         ],
